@@ -46,6 +46,14 @@ def logTanhT (o : XOps α) (cut invCut alpha beta : Float) (inverse : Bool) (x :
       let y := o.tanh x
       .ok (y, o.log (o.sub o.one (o.mul y y)))
 
+/-- the constants `LogTanh.__init__` derives from `cut_point` (nonlinearities.py:66-73), in binary64 like numpy:
+    `(inv_cut_point, alpha, beta)` with alpha = (1 - tanh(tanh c)) / c and beta = exp((tanh c - alpha log c) / alpha) -/
+def logTanhConsts (cut : Float) : Float × Float × Float :=
+  let invCut := Float.tanh cut
+  let alpha := (1 - Float.tanh (Float.tanh cut)) / cut
+  let beta := Float.exp ((Float.tanh cut - alpha * Float.log cut) / alpha)
+  (invCut, alpha, beta)
+
 /-- nonlinearities.py:121-140; `logSlope` is the attribute `log_negative_slope` as the code holds it -/
 def leakyReluT (o : XOps α) (slope : Float) (logSlope : α) (inverse : Bool) (x : α) : Except Err (α × α) :=
   let s := if inverse then o.ofFloat (1.0 / slope) else o.ofFloat slope
@@ -103,7 +111,7 @@ def nonlinEl (o : XOps α) (kind : String) (ds : Array Float) (ps : List α) (in
   match kind with
   | "Exp" => expT o inverse x
   | "Tanh" => tanhT o inverse x
-  | "LogTanh" => logTanhT o (d 0) (d 1) (d 2) (d 3) inverse x
+  | "LogTanh" => let c := logTanhConsts (d 0); logTanhT o (d 0) c.1 c.2.1 c.2.2 inverse x
   | "LeakyReLU" => leakyReluT o (d 0) (p 0) inverse x
   | "Sigmoid" => sigmoidT o (p 0) (d 0) inverse x
   | "Logit" => sigmoidT o (p 0) (d 0) (!inverse) x
